@@ -15,7 +15,8 @@ def visit_source(code: str, name: str = "m", *, extensions=None, collection=None
 
     lines = lines if lines is not None else griffe.LinesCollection()
     path = Path(f"/nonexistent-vf/{name}.py")
-    lines[path] = code.splitlines()
+    # Python's lines: "\n" only (str.splitlines() also breaks on form feed, U+2028, ... which are ordinary characters in source)
+    lines[path] = code.split("\n")[:-1] if code.endswith("\n") else code.split("\n")
     module = griffe.visit(name, filepath=path, code=code, extensions=extensions,
                           lines_collection=lines, modules_collection=collection, **kw)
     module.modules_collection[name] = module
